@@ -1,12 +1,800 @@
-//! C12: harness not built yet.
+//! C12: durable counters never hand out the same value twice, across restarts too.
+//!
+//! Streams (one case = one lifetime of a device's storage, with power losses anywhere):
+//!  `g <d0>`           Global Group Encrypted Data Message Counter: the real `Sessions`
+//!                     (`load_persist` from a recording KV store, `reserve_global_group_data_ctr`,
+//!                     `get_or_init_global_group_data_ctr` through `verif` hooks) + the caller
+//!                     protocol of `Exchange::initiate_group` step by step (reserve / store / stash /
+//!                     use), so that a crash can be placed before or after every single store.
+//!  `G <d0>`           the same, but the `Sessions` live in a real `Matter` object re-hydrated by the real
+//!                     `Matter::startup` (`verif_sessions` hook)
+//!  `e <d0>`           event numbers: the real `Events::push` with a recording KV store
+//!                     (`load_persist` through a `verif` hook); outputs run-length encoded.
+//!  `k <d0> <epoch> <init>`  Check-In counter: the real `CheckInCounter`, the harness is the application
+//!                     that owns the storage (one `Option<u32>`).
+//!  `i <d0> <epoch> <init>`  Check-In counter through the real `Icd` storage wrappers (`load_counter`,
+//!                     `persist_counter`, `advance_counter`, `invalidate_counter`, `next_counter`)
+//!                     over a recording KV store.
+//! `d0` = `none` or the boundary found in storage at the start of the case.
+//! crash = every in-memory object is dropped and rebuilt from the recorded store by the real
+//! start-up functions.
+use crate::proto::{parse_cases, Case, Out};
+use crate::rng::Rng;
 use crate::Args;
 
-pub fn gen(_a: &Args) -> String {
-    eprintln!("C12: harness not built yet");
-    std::process::exit(2);
+use std::cell::RefCell;
+use std::collections::HashMap;
+use std::panic::{catch_unwind, AssertUnwindSafe};
+
+use rs_matter::crypto::{default_crypto, Crypto};
+use rs_matter::dm::clusters::icd_mgmt::{Icd, IcdModeConfig};
+use rs_matter::dm::devices::test::{DAC_PRIVKEY, TEST_DEV_ATT, TEST_DEV_COMM, TEST_DEV_DET};
+use rs_matter::error::Error;
+use rs_matter::im::events::Events;
+use rs_matter::im::EventPriority;
+use rs_matter::persist::{
+    KvBlobStore, KvBlobStoreAccess, Persist, EVENT_EPOCH_KEY, GROUP_DATA_COUNTER_KEY, ICD_CHECK_IN_COUNTER_KEY,
+};
+use rs_matter::sc::checkin::CheckInCounter;
+use rs_matter::tlv::TLVElement;
+use rs_matter::transport::session::Sessions;
+use rs_matter::Matter;
+
+const MASK: u64 = 0x0fff_ffff;
+const U32M: u64 = 1 << 32;
+
+// ---------------------------------------------------------------- recording KV store
+
+#[derive(Default)]
+struct MemKv {
+    map: HashMap<u16, Vec<u8>>,
+    /// every `store` in order
+    log: Vec<(u16, Vec<u8>)>,
+    /// power loss right after the next `store` has become durable
+    die_after_store: bool,
 }
 
-pub fn replay(_a: &Args) -> String {
-    eprintln!("C12: harness not built yet");
-    std::process::exit(2);
+impl KvBlobStore for MemKv {
+    fn load<'a>(&mut self, key: u16, buf: &'a mut [u8]) -> Result<Option<&'a [u8]>, Error> {
+        Ok(self.map.get(&key).map(|v| {
+            buf[..v.len()].copy_from_slice(v);
+            &buf[..v.len()]
+        }))
+    }
+    fn store(&mut self, key: u16, data: &[u8], _buf: &mut [u8]) -> Result<(), Error> {
+        self.map.insert(key, data.to_vec());
+        self.log.push((key, data.to_vec()));
+        if self.die_after_store {
+            self.die_after_store = false;
+            panic!("power loss");
+        }
+        Ok(())
+    }
+    fn remove(&mut self, key: u16, _buf: &mut [u8]) -> Result<(), Error> {
+        self.map.remove(&key);
+        Ok(())
+    }
 }
+
+struct KvAcc<'a> {
+    kv: &'a RefCell<MemKv>,
+    buf: RefCell<[u8; 128]>,
+}
+
+impl<'a> KvAcc<'a> {
+    fn new(kv: &'a RefCell<MemKv>) -> Self {
+        KvAcc { kv, buf: RefCell::new([0; 128]) }
+    }
+}
+
+impl KvBlobStoreAccess for KvAcc<'_> {
+    fn access<F, R>(&self, f: F) -> R
+    where
+        F: FnOnce(&mut dyn KvBlobStore, &mut [u8]) -> R,
+    {
+        let mut kv = self.kv.borrow_mut();
+        let mut buf = self.buf.borrow_mut();
+        f(&mut *kv, &mut *buf)
+    }
+}
+
+fn le32(b: &[u8]) -> String {
+    match <[u8; 4]>::try_from(b) {
+        Ok(a) => u32::from_le_bytes(a).to_string(),
+        Err(_) => "badlen".into(),
+    }
+}
+
+fn opt(o: Option<u32>) -> String {
+    o.map(|b| b.to_string()).unwrap_or_else(|| "-".into())
+}
+
+fn parse_d0(s: Option<&str>) -> Option<u64> {
+    match s {
+        None | Some("none") => None,
+        Some(x) => x.parse().ok(),
+    }
+}
+
+// ---------------------------------------------------------------- fixed-draw RNG for the first-use seed
+
+struct FixedRng(u32);
+impl rand_core::RngCore for FixedRng {
+    fn next_u32(&mut self) -> u32 {
+        self.0
+    }
+    fn next_u64(&mut self) -> u64 {
+        self.0 as u64 | ((self.0 as u64) << 32)
+    }
+    fn fill_bytes(&mut self, dest: &mut [u8]) {
+        for (i, d) in dest.iter_mut().enumerate() {
+            *d = self.0.to_le_bytes()[i % 4];
+        }
+    }
+    fn try_fill_bytes(&mut self, dest: &mut [u8]) -> Result<(), rand_core::Error> {
+        self.fill_bytes(dest);
+        Ok(())
+    }
+}
+impl rand_core::CryptoRng for FixedRng {}
+
+// ---------------------------------------------------------------- g: group data counter
+
+/// `g`: a bare `Sessions` re-hydrated by `Sessions::load_persist`;
+/// `G`: a whole `Matter` object re-hydrated by the real `Matter::startup` (ties the start-up wiring)
+enum GBack {
+    Plain(Sessions),
+    Full(Box<Matter<'static>>),
+}
+
+impl GBack {
+    fn with<R>(&mut self, f: impl FnOnce(&mut Sessions) -> R) -> R {
+        match self {
+            GBack::Plain(s) => f(s),
+            GBack::Full(m) => m.with_state(|st| f(st.verif_sessions())),
+        }
+    }
+}
+
+fn g_boot(kv: &mut MemKv, full: bool) -> GBack {
+    if full {
+        let m = Box::new(Matter::new(&TEST_DEV_DET, TEST_DEV_COMM, &TEST_DEV_ATT, 0));
+        let _ = m.startup(m.kv(&mut *kv));
+        GBack::Full(m)
+    } else {
+        let mut s = Sessions::new();
+        let mut buf = [0u8; 64];
+        let _ = s.load_persist(&mut *kv, &mut buf);
+        GBack::Plain(s)
+    }
+}
+
+fn run_g(out: &mut Out, case: &Case, words: &[&str], full: bool) {
+    let mut kv = MemKv::default();
+    if let Some(d) = parse_d0(words.get(1).copied()) {
+        kv.map.insert(GROUP_DATA_COUNTER_KEY, (d as u32).to_le_bytes().to_vec());
+    }
+    let mut sess = g_boot(&mut kv, full);
+    let mut inflight: Option<(u32, Option<u32>)> = None;
+    let mut ready: Vec<u32> = Vec::new();
+    let (mut n_crash, mut n_use, mut n_store) = (0u32, 0u32, 0u32);
+    for op in &case.ops {
+        let w: Vec<&str> = op.split_whitespace().collect();
+        let res: String = match w.first().copied().unwrap_or("") {
+            "reserve" => {
+                if inflight.is_some() {
+                    "busy".into()
+                } else {
+                    let rand: u32 = w.get(1).and_then(|x| x.parse().ok()).unwrap_or(0);
+                    let crypto = default_crypto(FixedRng(rand), DAC_PRIVKEY);
+                    let r = catch_unwind(AssertUnwindSafe(|| sess.with(|s| s.verif_reserve_global_group_data_ctr(&crypto))));
+                    match r {
+                        Ok(Ok((v, b))) => {
+                            inflight = Some((v, b));
+                            let (l, bd) = sess.with(|s| s.verif_group_data_ctr_state());
+                            out.stat(if b.is_some() { "g_reserve_some" } else { "g_reserve_none" }, 1);
+                            format!("{} {} {} {}", v, opt(b), l, bd)
+                        }
+                        Ok(Err(_)) => "err".into(),
+                        Err(_) => "panic".into(),
+                    }
+                }
+            }
+            // exchange.rs: `if let Some(boundary) = boundary { kv.access(|store, buf| store.store(KEY, &boundary.to_le_bytes(), buf))?; }`
+            "store" => match inflight {
+                Some((v, Some(b))) => {
+                    let mut buf = [0u8; 64];
+                    let _ = kv.store(GROUP_DATA_COUNTER_KEY, &b.to_le_bytes(), &mut buf);
+                    inflight = Some((v, None));
+                    n_store += 1;
+                    le32(kv.map.get(&GROUP_DATA_COUNTER_KEY).map(|x| x.as_slice()).unwrap_or(&[]))
+                }
+                _ => "-".into(),
+            },
+            // exchange.rs: `exch.group_data_ctr = Some(group_data_ctr)` — reached only after the store
+            "stash" => match inflight {
+                Some((v, None)) => {
+                    inflight = None;
+                    ready.insert(0, v);
+                    v.to_string()
+                }
+                _ => "-".into(),
+            },
+            // session.rs `pre_send`: `group_data_ctr.take()` -> `tx_header.plain.ctr`
+            "use" => {
+                let i: usize = w.get(1).and_then(|x| x.parse().ok()).unwrap_or(0);
+                if i < ready.len() {
+                    n_use += 1;
+                    ready.remove(i).to_string()
+                } else {
+                    "-".into()
+                }
+            }
+            "peek" => {
+                let rand: u32 = w.get(1).and_then(|x| x.parse().ok()).unwrap_or(0);
+                let crypto = default_crypto(FixedRng(rand), DAC_PRIVKEY);
+                match catch_unwind(AssertUnwindSafe(|| sess.with(|s| s.verif_get_or_init_global_group_data_ctr(&crypto)))) {
+                    Ok(Ok(v)) => {
+                        let (l, bd) = sess.with(|s| s.verif_group_data_ctr_state());
+                        format!("{} {} {}", v, l, bd)
+                    }
+                    Ok(Err(_)) => "err".into(),
+                    Err(_) => "panic".into(),
+                }
+            }
+            "crash" => {
+                n_crash += 1;
+                inflight = None;
+                ready.clear();
+                sess = g_boot(&mut kv, full);
+                let (l, bd) = sess.with(|s| s.verif_group_data_ctr_state());
+                format!("{} {}", l, bd)
+            }
+            _ => "badop".into(),
+        };
+        out.op(op, &res);
+    }
+    if n_crash >= 1 && n_use >= 2 && n_store >= 1 {
+        out.buf.push_str("#nt\n");
+    }
+}
+
+// ---------------------------------------------------------------- e: event numbers
+
+type Ev = Events<64>;
+
+fn e_boot(kv: &RefCell<MemKv>) -> Ev {
+    let ev = Ev::new();
+    let mut buf = [0u8; 64];
+    let _ = ev.verif_load_persist(&mut *kv.borrow_mut(), &mut buf);
+    ev
+}
+
+fn tlv_u64(b: &[u8]) -> String {
+    match TLVElement::new(b).u64() {
+        Ok(v) => v.to_string(),
+        Err(_) => "badtlv".into(),
+    }
+}
+
+/// drains the store log into `s<v>` tokens
+fn drain_stores(kv: &RefCell<MemKv>, toks: &mut Vec<String>) {
+    let log: Vec<(u16, Vec<u8>)> = std::mem::take(&mut kv.borrow_mut().log);
+    for (k, data) in log {
+        if k == EVENT_EPOCH_KEY {
+            toks.push(format!("s{}", tlv_u64(&data)));
+        } else {
+            toks.push(format!("s?{}", k));
+        }
+    }
+}
+
+fn run_e(out: &mut Out, case: &Case, words: &[&str]) {
+    let kvc = RefCell::new(MemKv::default());
+    if let Some(d) = parse_d0(words.get(1).copied()) {
+        // the same encoding path the code uses for this key
+        let acc = KvAcc::new(&kvc);
+        let _ = Persist::new(&acc).store_tlv(EVENT_EPOCH_KEY, d);
+        kvc.borrow_mut().log.clear();
+    }
+    let mut ev = e_boot(&kvc);
+    let (mut n_crash, mut n_push, mut n_store) = (0u32, 0u64, 0u32);
+    for op in &case.ops {
+        let w: Vec<&str> = op.split_whitespace().collect();
+        let res: String = match w.first().copied().unwrap_or("") {
+            "push" => {
+                let k: u64 = w.get(1).and_then(|x| x.parse().ok()).unwrap_or(1).min(200_000);
+                let mut toks: Vec<String> = Vec::new();
+                let mut run: Option<(u64, u64)> = None;
+                for _ in 0..k {
+                    let acc = KvAcc::new(&kvc);
+                    let r = catch_unwind(AssertUnwindSafe(|| ev.push(0, 0x28, 0, EventPriority::Info, &acc, |_tw| Ok(()))));
+                    let before = toks.len();
+                    // a store of this push precedes the number it returned
+                    if !kvc.borrow().log.is_empty() {
+                        if let Some((a, b)) = run.take() {
+                            toks.push(format!("r{}-{}", a, b));
+                        }
+                        drain_stores(&kvc, &mut toks);
+                        n_store += (toks.len() - before) as u32;
+                    }
+                    match r {
+                        Ok(Ok(n)) => {
+                            n_push += 1;
+                            run = match run {
+                                Some((a, b)) if b.wrapping_add(1) == n => Some((a, n)),
+                                Some((a, b)) => {
+                                    toks.push(format!("r{}-{}", a, b));
+                                    Some((n, n))
+                                }
+                                None => Some((n, n)),
+                            };
+                        }
+                        Ok(Err(_)) => {
+                            if let Some((a, b)) = run.take() {
+                                toks.push(format!("r{}-{}", a, b));
+                            }
+                            toks.push("err".into());
+                        }
+                        Err(_) => {
+                            if let Some((a, b)) = run.take() {
+                                toks.push(format!("r{}-{}", a, b));
+                            }
+                            toks.push("panic".into());
+                            break;
+                        }
+                    }
+                }
+                if let Some((a, b)) = run.take() {
+                    toks.push(format!("r{}-{}", a, b));
+                }
+                if toks.is_empty() {
+                    "-".into()
+                } else {
+                    toks.join(" ")
+                }
+            }
+            // power loss inside `push`, right after its store became durable (if it stores at all;
+            // otherwise the push completes normally and the power loss follows it)
+            "pushcrash" => {
+                kvc.borrow_mut().die_after_store = true;
+                let mut toks: Vec<String> = Vec::new();
+                let r = {
+                    let acc = KvAcc::new(&kvc);
+                    catch_unwind(AssertUnwindSafe(|| ev.push(0, 0x28, 0, EventPriority::Info, &acc, |_tw| Ok(()))))
+                };
+                // (unwinding dropped the borrow guards of the aborted `push` frame)
+                let died = r.is_err();
+                kvc.borrow_mut().die_after_store = false;
+                let before = toks.len();
+                drain_stores(&kvc, &mut toks);
+                n_store += (toks.len() - before) as u32;
+                if let Ok(Ok(n)) = r {
+                    n_push += 1;
+                    toks.push(format!("r{}-{}", n, n));
+                }
+                toks.push(if died { "died".into() } else { "done".into() });
+                // restart on the surviving storage
+                n_crash += 1;
+                ev = e_boot(&kvc);
+                toks.push(ev.verif_next_event_number().to_string());
+                toks.join(" ")
+            }
+            "crash" => {
+                n_crash += 1;
+                ev = e_boot(&kvc);
+                ev.verif_next_event_number().to_string()
+            }
+            _ => "badop".into(),
+        };
+        out.op(op, &res);
+    }
+    if n_crash >= 1 && n_push >= 2 && n_store >= 1 {
+        out.buf.push_str("#nt\n");
+    }
+}
+
+// ---------------------------------------------------------------- k / i: Check-In counter
+
+fn icd_mode() -> IcdModeConfig {
+    IcdModeConfig {
+        idle_mode_duration_s: 3600,
+        active_mode_duration_ms: 1000,
+        active_mode_threshold_ms: 300,
+        user_active_mode_trigger_hint: 0,
+        user_active_mode_trigger_instruction: "",
+    }
+}
+
+fn run_k(out: &mut Out, case: &Case, words: &[&str]) {
+    let mut durable: Option<u32> = parse_d0(words.get(1).copied()).map(|d| d as u32);
+    let epoch: u32 = words.get(2).and_then(|x| x.parse().ok()).unwrap_or(10).max(1);
+    let init: u32 = words.get(3).and_then(|x| x.parse().ok()).unwrap_or(0);
+    let mut ctr = CheckInCounter::new(durable.unwrap_or(init), epoch);
+    let (mut n_crash, mut n_use, mut n_store) = (0u32, 0u32, 0u32);
+    for op in &case.ops {
+        let w: Vec<&str> = op.split_whitespace().collect();
+        let res: String = match w.first().copied().unwrap_or("") {
+            "boot" => {
+                n_crash += 1;
+                let i: u32 = w.get(1).and_then(|x| x.parse().ok()).unwrap_or(0);
+                ctr = CheckInCounter::new(durable.unwrap_or(i), epoch);
+                format!("{} {}", ctr.next(), ctr.persist_value())
+            }
+            "persist" => {
+                durable = Some(ctr.persist_value());
+                n_store += 1;
+                opt(durable)
+            }
+            "use" => {
+                n_use += 1;
+                ctr.next().to_string()
+            }
+            "adv" => opt(ctr.advance()),
+            "advst" => {
+                let r = ctr.advance();
+                if let Some(b) = r {
+                    durable = Some(b);
+                    n_store += 1;
+                }
+                opt(r)
+            }
+            "jump" => {
+                let d: u32 = w.get(1).and_then(|x| x.parse().ok()).unwrap_or(0);
+                opt(ctr.advance_by(d))
+            }
+            _ => "badop".into(),
+        };
+        out.op(op, &res);
+    }
+    if n_crash >= 1 && n_use >= 2 && n_store >= 1 {
+        out.buf.push_str("#nt\n");
+    }
+}
+
+fn i_boot(kv: &mut MemKv, init: u32, epoch: u32) -> Icd {
+    let icd = Icd::new(CheckInCounter::new(init, epoch), icd_mode());
+    let mut buf = [0u8; 64];
+    let _ = icd.load_counter(&mut *kv, epoch, &mut buf);
+    icd
+}
+
+fn run_i(out: &mut Out, case: &Case, words: &[&str]) {
+    let mut kv = MemKv::default();
+    if let Some(d) = parse_d0(words.get(1).copied()) {
+        kv.map.insert(ICD_CHECK_IN_COUNTER_KEY, (d as u32).to_le_bytes().to_vec());
+    }
+    let epoch: u32 = words.get(2).and_then(|x| x.parse().ok()).unwrap_or(10).max(1);
+    let init: u32 = words.get(3).and_then(|x| x.parse().ok()).unwrap_or(0);
+    let mut icd = i_boot(&mut kv, init, epoch);
+    let (mut n_crash, mut n_use, mut n_store) = (0u32, 0u32, 0u32);
+    let stored = |kv: &mut MemKv| -> String {
+        let l = std::mem::take(&mut kv.log);
+        match l.last() {
+            Some((k, d)) if *k == ICD_CHECK_IN_COUNTER_KEY => le32(d),
+            Some(_) => "wrongkey".into(),
+            None => "-".into(),
+        }
+    };
+    for op in &case.ops {
+        let w: Vec<&str> = op.split_whitespace().collect();
+        let mut buf = [0u8; 64];
+        let res: String = match w.first().copied().unwrap_or("") {
+            "boot" => {
+                n_crash += 1;
+                let i: u32 = w.get(1).and_then(|x| x.parse().ok()).unwrap_or(0);
+                icd = i_boot(&mut kv, i, epoch);
+                icd.next_counter().to_string()
+            }
+            "persist" => {
+                let _ = icd.persist_counter(&mut kv, &mut buf);
+                n_store += 1;
+                stored(&mut kv)
+            }
+            "use" => {
+                n_use += 1;
+                icd.next_counter().to_string()
+            }
+            "advst" => {
+                let _ = icd.advance_counter(&mut kv, &mut buf);
+                let s = stored(&mut kv);
+                if s != "-" {
+                    n_store += 1;
+                }
+                s
+            }
+            "jump" => {
+                let d: u32 = w.get(1).and_then(|x| x.parse().ok()).unwrap_or(0);
+                if icd.invalidate_counter(d) {
+                    "y".into()
+                } else {
+                    "-".into()
+                }
+            }
+            _ => "badop".into(),
+        };
+        out.op(op, &res);
+    }
+    if n_crash >= 1 && n_use >= 2 && n_store >= 1 {
+        out.buf.push_str("#nt\n");
+    }
+}
+
+// ---------------------------------------------------------------- dispatch
+
+fn run_case(out: &mut Out, case: &Case) {
+    out.case(case.id, &case.kind);
+    let words: Vec<&str> = case.kind.split_whitespace().collect();
+    match words.first().copied().unwrap_or("") {
+        "g" => run_g(out, case, &words, false),
+        "G" => run_g(out, case, &words, true),
+        "e" => run_e(out, case, &words),
+        "k" => run_k(out, case, &words),
+        "i" => run_i(out, case, &words),
+        _ => {
+            for op in &case.ops {
+                out.op(op, "badkind");
+            }
+        }
+    }
+}
+
+// ---------------------------------------------------------------- generators
+
+fn d0_str(d: Option<u64>) -> String {
+    d.map(|x| x.to_string()).unwrap_or_else(|| "none".into())
+}
+
+/// stored boundary at the start of a `g` case: concentrated at the wrap-around of the 28-bit range
+fn gen_g_d0(r: &mut Rng, out: &mut Out) -> Option<u64> {
+    match r.below(100) {
+        0..=7 => { out.stat("g_d0_none", 1); None }
+        8..=47 => { out.stat("g_d0_near_top", 1); Some(MASK - r.below(2101)) }
+        48..=55 => { out.stat("g_d0_top_exact", 1); Some(*r.pick(&[MASK, MASK - 1, MASK - 999, MASK - 1000, MASK - 1001, MASK - 998])) }
+        56..=63 => { out.stat("g_d0_zero", 1); Some(0) }
+        64..=75 => { out.stat("g_d0_low", 1); Some(*r.pick(&[1u64, 2, 3, 999, 1000, 1001, 1002, 2001])) }
+        _ => { out.stat("g_d0_uniform", 1); Some(1 + r.below(MASK)) }
+    }
+}
+
+fn gen_g_rand(r: &mut Rng) -> u64 {
+    match r.below(10) {
+        0 => 0,
+        1 => 1 << 28,                      // masks to 0 -> 1
+        2 => (r.below(16) << 28) | MASK,   // masks to the top of the range
+        3 => (r.below(16) << 28) | (MASK - r.below(1200)),
+        4 => 1,
+        _ => r.below(U32M),
+    }
+}
+
+fn gen_g(r: &mut Rng, out: &mut Out, sends: u64) -> Vec<String> {
+    let mut ops: Vec<String> = Vec::new();
+    let p_crash = *r.pick(&[0u64, 2, 5, 10, 25]);
+    let p_defer = *r.pick(&[0u64, 10, 40]);
+    let mut ready = 0u64; // generator's estimate, only used to pick indices
+    let crash = |ops: &mut Vec<String>, ready: &mut u64, out: &mut Out, at: &str| {
+        out.stat(&format!("g_crash_{}", at), 1);
+        ops.push("crash".into());
+        *ready = 0;
+    };
+    for _ in 0..sends {
+        if r.chance(p_crash, 100) { crash(&mut ops, &mut ready, out, "before_reserve"); }
+        if r.chance(3, 100) { ops.push(format!("peek {}", gen_g_rand(r))); }
+        ops.push(format!("reserve {}", gen_g_rand(r)));
+        if r.chance(p_crash, 100) { crash(&mut ops, &mut ready, out, "after_reserve"); continue; }
+        if r.chance(2, 100) { ops.push("stash".into()); } // the caller never does this before the store: must be a no-op
+        ops.push("store".into());
+        if r.chance(p_crash, 100) { crash(&mut ops, &mut ready, out, "after_store"); continue; }
+        ops.push("stash".into());
+        ready += 1;
+        if r.chance(p_crash, 100) { crash(&mut ops, &mut ready, out, "after_stash"); continue; }
+        if r.chance(p_defer, 100) { out.stat("g_use_deferred", 1); continue; }
+        while ready > 0 {
+            ops.push(format!("use {}", r.below(ready)));
+            ready -= 1;
+            if r.chance(p_crash, 200) { crash(&mut ops, &mut ready, out, "after_use"); }
+            if r.chance(1, 3) { break; }
+        }
+    }
+    while ready > 0 {
+        ops.push(format!("use {}", r.below(ready)));
+        ready -= 1;
+    }
+    ops
+}
+
+fn gen_e_d0(r: &mut Rng, out: &mut Out) -> Option<u64> {
+    match r.below(100) {
+        0..=24 => { out.stat("e_d0_none", 1); None }
+        25..=59 => { out.stat("e_d0_small", 1); Some(10000 * r.range(1, 5)) }
+        60..=79 => { out.stat("e_d0_mid", 1); Some(10000 * *r.pick(&[429496u64, 429497, 1 << 20, 1 << 40, 922337203685477])) }
+        80..=96 => { out.stat("e_d0_u64_high", 1); Some(10000 * (1844674407370955 - r.range(120, 400))) }
+        // next to the wrap of the u64: model correspondence only (the oracle is off there)
+        _ => { out.stat("e_d0_u64_wrapzone", 1); Some(10000 * (1844674407370955 - r.range(0, 3))) }
+    }
+}
+
+fn gen_e(r: &mut Rng, out: &mut Out, budget: u64) -> Vec<String> {
+    let mut ops: Vec<String> = Vec::new();
+    let mut left = budget;
+    let n = r.range(2, 14);
+    for _ in 0..n {
+        match r.below(100) {
+            0..=19 => { out.stat("e_crash", 1); ops.push("crash".into()); }
+            20..=29 => { out.stat("e_pushcrash", 1); ops.push("pushcrash".into()); }
+            30..=59 => { let k = r.range(1, 5); ops.push(format!("push {}", k)); left = left.saturating_sub(k); }
+            60..=84 => {
+                // to just before / onto / past the next epoch boundary
+                let k = (*r.pick(&[9990u64, 9995, 9998, 9999, 10000, 10001, 10005])).min(left);
+                if k > 0 { out.stat("e_push_epoch", 1); ops.push(format!("push {}", k)); left -= k; }
+            }
+            _ => { let k = r.range(1, 3000).min(left); if k > 0 { ops.push(format!("push {}", k)); left -= k; } }
+        }
+    }
+    ops
+}
+
+fn gen_k_epoch(r: &mut Rng) -> u64 {
+    match r.below(10) {
+        0 => 1,
+        1 => 2,
+        2 => 3,
+        3..=5 => *r.pick(&[4u64, 10, 16, 100]),
+        6..=7 => 1000,
+        8 => 65536,
+        _ => *r.pick(&[1u64 << 31, U32M - 1, (1 << 31) + 1, 1 << 24]),
+    }
+}
+
+fn gen_k_start(r: &mut Rng, epoch: u64) -> u64 {
+    match r.below(10) {
+        0..=4 => (U32M - 1 - r.below(2 * epoch.min(2000) + 3)) % U32M,
+        5 => *r.pick(&[0u64, 1, 2, U32M - 1, U32M - 2]),
+        6 => (U32M - epoch) % U32M,
+        7 => (U32M - epoch - 1) % U32M,
+        _ => r.below(U32M),
+    }
+}
+
+/// `icd` = the ops available through `Icd` only; `well` = the application obeys the interface
+fn gen_k(r: &mut Rng, out: &mut Out, icd: bool, well: bool, len: u64, epoch: u64) -> Vec<String> {
+    let mut ops: Vec<String> = Vec::new();
+    // the application's view of the protocol (only used to generate well-behaved histories)
+    let mut pending = true;
+    let mut peeked = false;
+    let mut spent: u64 = 0; // positions consumed, to stay within one cycle in well-behaved cases
+    let big_ok = epoch < (1 << 20);
+    for _ in 0..len {
+        let c = r.below(100);
+        if c < 10 {
+            out.stat("k_boot", 1);
+            ops.push(format!("boot {}", gen_k_start(r, epoch)));
+            pending = true;
+            peeked = false;
+            spent += epoch;
+        } else if c < 30 {
+            if pending || r.chance(1, 6) {
+                ops.push("persist".into());
+                pending = false;
+            }
+        } else if c < 65 {
+            if well && (pending || peeked) {
+                // obey: store first / advance first
+                if pending { ops.push("persist".into()); pending = false; }
+                if peeked { ops.push(if icd || r.chance(1, 2) { "advst".into() } else { "adv".into() }); peeked = false; spent += 1; if ops.last().map(|s| s == "adv").unwrap_or(false) { ops.push("persist".into()); } }
+            }
+            if !well && (pending || peeked) { out.stat("k_use_disobeying", 1); }
+            ops.push("use".into());
+            peeked = true;
+        } else if c < 90 {
+            if icd || r.chance(2, 3) {
+                ops.push("advst".into());
+            } else {
+                ops.push("adv".into());
+                // the application may not know whether a boundary was returned: well-behaved = store whenever told;
+                // the generator cannot see the answer, so it stores unconditionally half of the time and
+                // otherwise marks the state as possibly pending
+                if well || r.chance(1, 2) { ops.push("persist".into()); pending = false; } else { pending = true; }
+            }
+            peeked = false;
+            spent += 1;
+        } else {
+            let d = match r.below(6) {
+                0 => 0,
+                1 => r.range(1, epoch.min(50)),
+                2 => epoch,
+                3 => epoch + r.below(3),
+                4 if big_ok && spent < (1 << 30) => *r.pick(&[(U32M - 1) / 2, 1 << 31, 1 << 30]),
+                _ => r.below(5000),
+            };
+            let d = d.min(U32M - 1);
+            if well && spent + d + 4 * epoch >= U32M - 1 { continue; }
+            out.stat("k_jump", 1);
+            ops.push(format!("jump {}", d));
+            spent += d;
+            if well || r.chance(1, 2) { ops.push("persist".into()); pending = false; } else { pending = true; }
+        }
+    }
+    ops
+}
+
+pub fn gen(a: &Args) -> String {
+    let mut r = Rng::new(a.seed);
+    let mut out = Out::default();
+    out.buf.push_str("#rule one case = one lifetime of a device's storage: a start boundary (absent, 0, 1, next to the wrap-around of the counter range, or uniform) and a history of reservations / stores / uses with power losses placed before or after every individual store; streams g (group data counter through the real Sessions + initiate_group's caller protocol; plus all g histories of length 6 (quick) / 7 (thorough) over {reserve, store, stash, use, crash} from start values at the wrap), e (Events::push with a recording KV store), k (CheckInCounter, harness = application), i (Icd storage wrappers); non-trivial = at least one power loss, at least two values used and at least one store in the case (cases not reaching that are still counted when they produced two different outputs); distinct = by start boundary + operation list\n");
+    // all `g` histories of a fixed length over the caller's alphabet, from start values at the wrap
+    // (shorter histories are prefixes of these)
+    let alphabet = ["reserve 0", "store", "stash", "use 0", "crash"];
+    let (exh_len, exh_starts): (u32, &[Option<u64>]) = if a.thorough {
+        (7, &[Some(MASK), Some(MASK - 1), Some(MASK - 999), Some(MASK - 998), Some(0), None])
+    } else {
+        (6, &[Some(MASK), Some(MASK - 999), Some(0), None])
+    };
+    let mut exh_id: u64 = 1_000_000;
+    for d0 in exh_starts {
+        for code in 0..(alphabet.len() as u64).pow(exh_len) {
+            let mut c = code;
+            let mut ops: Vec<String> = Vec::with_capacity(exh_len as usize);
+            for _ in 0..exh_len {
+                ops.push(alphabet[(c % alphabet.len() as u64) as usize].to_string());
+                c /= alphabet.len() as u64;
+            }
+            out.stat("kind_g_exhaustive", 1);
+            run_case(&mut out, &Case { id: exh_id, kind: format!("g {}", d0_str(*d0)), ops });
+            exh_id += 1;
+        }
+    }
+    let n_cases: u64 = if a.thorough { 60000 } else { 3000 };
+    let mut e_budget: u64 = if a.thorough { 60_000_000 } else { 2_500_000 };
+    for id in 0..n_cases {
+        let mut cr = r.fork();
+        let sel = cr.below(100);
+        let (kind, ops) = if sel < 45 {
+            let d0 = gen_g_d0(&mut cr, &mut out);
+            // mostly short; some long enough to run through a whole epoch and the wrap
+            let sends = match cr.below(100) {
+                0..=59 => cr.range(1, 12),
+                60..=89 => cr.range(12, 80),
+                90..=96 => cr.range(900, 1300),
+                _ => cr.range(2000, if a.thorough { 6000 } else { 3200 }),
+            };
+            // one in five through a whole `Matter` object and the real `Matter::startup` (short ones only)
+            let full = sends <= 80 && cr.chance(1, 5);
+            out.stat(if full { "kind_G_matter_startup" } else { "kind_g" }, 1);
+            (format!("{} {}", if full { "G" } else { "g" }, d0_str(d0)), gen_g(&mut cr, &mut out, sends))
+        } else if sel < 60 {
+            let d0 = gen_e_d0(&mut cr, &mut out);
+            let per_case = if e_budget > 30000 { 30000 } else { e_budget.min(50) };
+            let ops = gen_e(&mut cr, &mut out, per_case);
+            let spent: u64 = ops.iter().filter_map(|o| o.strip_prefix("push ").and_then(|x| x.parse::<u64>().ok())).sum();
+            e_budget = e_budget.saturating_sub(spent);
+            out.stat("kind_e", 1);
+            (format!("e {}", d0_str(d0)), ops)
+        } else {
+            let icd = sel >= 82;
+            let epoch = gen_k_epoch(&mut cr);
+            let d0 = if cr.chance(1, 6) { None } else { Some(gen_k_start(&mut cr, epoch)) };
+            let init = gen_k_start(&mut cr, epoch);
+            let well = cr.chance(4, 5);
+            let len = if cr.chance(1, 10) { cr.range(200, 1500) } else { cr.range(3, 60) };
+            out.stat(if icd { "kind_i" } else { "kind_k" }, 1);
+            out.stat(if well { "k_wellbehaved_cases" } else { "k_disobeying_cases" }, 1);
+            (format!("{} {} {} {}", if icd { "i" } else { "k" }, d0_str(d0), epoch, init), gen_k(&mut cr, &mut out, icd, well, len, epoch))
+        };
+        run_case(&mut out, &Case { id, kind, ops });
+    }
+    out.finish()
+}
+
+pub fn replay(a: &Args) -> String {
+    let text = std::fs::read_to_string(a.input.as_ref().expect("--in")).expect("read input");
+    let mut out = Out::default();
+    for c in parse_cases(&text) {
+        run_case(&mut out, &c);
+    }
+    out.finish()
+}
+
+#[allow(unused)]
+fn _crypto_is_used<C: Crypto>(_c: C) {}
